@@ -318,23 +318,31 @@ Definition all_true (l : list bool) : bool := forallb (fun b => b) l.
 Definition dft_init_status (shape axes : list nat) (hc : bool) (default_range : bool) : status :=
   let rshape := if hc then hc_shape shape axes else shape in
   if default_range && existsb (fun n => (n =? 1)%nat) rshape then SValueErr else SOk.
-(* DiscreteFourierTransformInverse._call as the CURRENT code behaves (findings/C18.json):
+(* VARIANT SWITCHES.  The status functions below describe recorded defects of the current code
+   (findings/C18.json).  Each takes a boolean v_... = "the defect is present", measured by the
+   harness on the finding's own repro input on every run, so that neither the defect nor its
+   later repair breaks the correspondence.  The property theorems are proved for the repaired
+   behaviour; Props.v states what the defective variants do.
+
+   DiscreteFourierTransformInverse._call as the CURRENT code behaves:
    - onto a real space without halfcomplex the pyfftw back-end rejects the real output array
      (ValueError from _pyfftw_check_args for sign '-', from pyfftw.FFTW for sign '+' unless the
      last axis has <= 2 points, where FFTW silently runs a c2r transform = real part of the
      complex inverse); the numpy back-end stores the real part;
    - halfcomplex with the numpy back-end calls irfftn without `s`, so an odd last axis
      comes back one short and the assignment raises ValueError *)
-Definition dft_inverse_status (pyfftw real_dom hc : bool) (sg_minus : bool) (shape axes : list nat) : status :=
+Definition dft_inverse_status (v_real_pyfftw_raises v_hc_odd_numpy_raises : bool)
+           (pyfftw real_dom hc : bool) (sg_minus : bool) (shape axes : list nat) : status :=
   let nl := nth (last_axis axes) shape 0%nat in
-  if real_dom && negb hc && pyfftw && (sg_minus || (3 <=? nl)%nat) then SValueErr
-  else if real_dom && hc && negb pyfftw && Nat.odd nl then SValueErr
+  if v_real_pyfftw_raises && real_dom && negb hc && pyfftw && (sg_minus || (3 <=? nl)%nat) then SValueErr
+  else if v_hc_odd_numpy_raises && real_dom && hc && negb pyfftw && Nat.odd nl then SValueErr
   else SOk.
 (* FourierTransformBase.__init__ *)
-Definition ft_init_status (g : list axis) (axes : list nat) (shifts : list bool) (hc : bool)
-           (sg_fwd_plus : bool) : status :=
+Definition ft_init_status (v_hc_needs_all_shifts : bool) (g : list axis) (axes : list nat)
+           (shifts : list bool) (hc : bool) (sg_fwd_plus : bool) : status :=
   if hc && sg_fwd_plus then SValueErr
-  else if hc && negb (last shifts true) then SValueErr
+  else if hc && (if v_hc_needs_all_shifts then negb (all_true shifts) else negb (last shifts true))
+       then SValueErr
   else if existsb (fun ax => (a_n (nth ax g (mk_axis nzero nzero 0)) <=? 1)%nat) axes then SValueErr
   else SOk.
 (* what the CURRENT code does when called (see findings/C18.json):
@@ -342,7 +350,9 @@ Definition ft_init_status (g : list axis) (axes : list nat) (shifts : list bool)
 Definition ft_forward_status (pyfftw real_dom hc : bool) (shifts : list bool) : status :=
   if pyfftw && real_dom && hc && negb (all_true shifts) then SOtherErr   (* assert is_real_dtype(preproc) *)
   else SOk.
-Definition ft_inverse_status (pyfftw real_dom hc : bool) (shifts : list bool) : status :=
-  if real_dom && negb (all_true shifts) && (hc || pyfftw) then STypeErr  (* complex factor into a real array *)
+Definition ft_inverse_status (v_real_unshifted_pyfftw_raises : bool) (pyfftw real_dom hc : bool)
+           (shifts : list bool) : status :=
+  if real_dom && negb (all_true shifts) && (hc || (pyfftw && v_real_unshifted_pyfftw_raises))
+  then STypeErr  (* complex factor into a real array *)
   else SOk.
 End Model.
